@@ -142,7 +142,12 @@ class Pre:
             c.table = tbl
             c.token = self.token(i)
             cols[f"{self.tag}_c{i}"] = c
-            sqa_expr[self.uuids[i]] = sqlmodel.label(names[i], c)
+            e = c
+            if self.ftypes[i] == Ftype.WINDOW:
+                e = sqlmodel.over(sqlmodel.func.SUM(c), partition_by=None, order_by=None)
+            elif self.ftypes[i] == Ftype.AGGREGATE:
+                e = sqlmodel.func.SUM(c)
+            sqa_expr[self.uuids[i]] = sqlmodel.label(names[i], e)
         tbl.columns = sqlmodel._ColColl(cols)
         tbl.c = tbl.columns
         cd = self.cols_dict()
@@ -172,14 +177,24 @@ def polars_step(pres):
             return p.polars_state()
         return real(nd)
 
+    real_from_ast = Cache.__dict__["from_ast"]
+
+    def from_ast_stub(node):
+        p = by_node.get(id(node))
+        if p is not None:
+            return p.cache()
+        return real_from_ast.__func__(node)
+
     with H.patched():
         saved = plmodel.STRUCT_MODE
         plmodel.STRUCT_MODE = True
         H.polars_backend.compile_ast = stub
+        Cache.from_ast = staticmethod(from_ast_stub)
         try:
             yield real
         finally:
             H.polars_backend.compile_ast = real
+            Cache.from_ast = real_from_ast
             plmodel.STRUCT_MODE = saved
 
 
